@@ -116,15 +116,97 @@ func ruleL0(r *Report) {
 				msg = fmt.Sprintf("latch release at %s has no dominating acquire of the same mode on the same shard value", r.P.InstrPos(fi.ins[i]))
 			}
 		}
+		// no path leaks an acquire: the must-hold sets above are intersections at joins, so a lock that
+		// is still held on ONE of the paths into a join (a `continue` before the unlock) drops out of
+		// them silently; this clause follows every path from each acquire to an exit, or round a
+		// loop back to the acquire, and demands the matching release on it (or a deferred one)
+		for i, op := range fi.ops {
+			if !op.Acquire || isDeferIns(fi.ins[i]) {
+				continue
+			}
+			matches := func(j int) bool {
+				o := fi.ops[j]
+				if o.Acquire || o.Name != op.Name || o.Mode != op.Mode {
+					return false
+				}
+				if op.Name == "latch" && !(sameExpr(o.Shard, op.Shard) && sameExpr(o.Recv, op.Recv)) {
+					return false
+				}
+				return true
+			}
+			deferred := false
+			rel := map[ssa.Instruction]bool{}
+			for j := range fi.ops {
+				if matches(j) {
+					if isDeferIns(fi.ins[j]) {
+						deferred = true
+					} else {
+						rel[fi.ins[j]] = true
+					}
+				}
+			}
+			if deferred {
+				continue
+			}
+			if leak := leakFrom(fi.ins[i], func(ins ssa.Instruction) bool { return rel[ins] }); leak != nil && msg == "" {
+				msg = fmt.Sprintf("%s:%s acquired at %s is still held where the path reaches %s (no matching release on that path)", op.Name, string(op.Mode), r.P.InstrPos(fi.ins[i]), r.P.InstrPos(leak))
+			}
+		}
 		if msg != "" {
 			h.Bad(n, r.P.Pos(fi.fn.Pos()), msg)
 		} else {
-			h.OK(n, r.P.Pos(fi.fn.Pos()), fmt.Sprintf("%d lock operations, balanced in every context", len(fi.ops)))
+			h.OK(n, r.P.Pos(fi.fn.Pos()), fmt.Sprintf("%d lock operations, balanced in every context and on every path", len(fi.ops)))
 		}
 	}
 }
 
 func isDeferIns(ins ssa.Instruction) bool { _, ok := ins.(*ssa.Defer); return ok }
+
+// leakFrom follows every path from the acquire: it returns the instruction at which a path ends
+// without having passed a release — a return, or the acquire itself reached again round a loop —
+// or nil if every path releases.
+func leakFrom(acq ssa.Instruction, isRel func(ssa.Instruction) bool) ssa.Instruction {
+	start := acq.Block()
+	if blockHas(start, instrIndex(acq)+1, isRel) {
+		return nil
+	}
+	last := start.Instrs[len(start.Instrs)-1]
+	if _, isRet := last.(*ssa.Return); isRet {
+		return last
+	}
+	seen := map[*ssa.BasicBlock]bool{}
+	work := append([]*ssa.BasicBlock{}, start.Succs...)
+	for len(work) > 0 {
+		b := work[len(work)-1]
+		work = work[:len(work)-1]
+		if b == start {
+			// back at the acquire without a release (unless one precedes it in its own block)
+			released := false
+			for k := 0; k < instrIndex(acq); k++ {
+				if isRel(start.Instrs[k]) {
+					released = true
+				}
+			}
+			if !released {
+				return acq
+			}
+			continue
+		}
+		if seen[b] {
+			continue
+		}
+		seen[b] = true
+		if blockHas(b, 0, isRel) {
+			continue
+		}
+		l := b.Instrs[len(b.Instrs)-1]
+		if _, isRet := l.(*ssa.Return); isRet {
+			return l
+		}
+		work = append(work, b.Succs...)
+	}
+	return nil
+}
 
 // ---------------------------------------------------------------------------------------------
 // L1: Apply under the exclusive latch
@@ -372,11 +454,11 @@ func ruleShard(r *Report) {
 type storageKind int
 
 const (
-	stNone    storageKind = iota
-	stBlock               // selected by block: fill/data of a chunks[T] element
-	stWhole               // whole-collection container (bitmap, slice, map, tree)
-	stHeader              // the chunks[T] slice header itself
-	stConfig              // immutable after construction
+	stNone   storageKind = iota
+	stBlock              // selected by block: fill/data of a chunks[T] element
+	stWhole              // whole-collection container (bitmap, slice, map, tree)
+	stHeader             // the chunks[T] slice header itself
+	stConfig             // immutable after construction
 	stLock
 )
 
